@@ -280,6 +280,7 @@ def run_case(run: Run, spec, tmp):
     amb = {r_[0] for r_ in rl if (r_[1] in amb_src) or (r_[1] is None and r_[3] and any(tt.dtype == torch.bool for nn_, tt in res_leaves if nn_ == r_[0]))}
     struct = []
     struct_ok = True
+    fresh_allocs = []
     if cls == "rebind":
         d0 = {n: d for n, d, _ in descs[0]}
         d1 = {n: world.desc(t) for n, t in self1}
@@ -296,12 +297,29 @@ def run_case(run: Run, spec, tmp):
                 continue
             hit = allold.get((d[0], tuple(d[1])))
             if hit is None:
-                struct_ok = False      # bound to a tensor nobody held before (fresh conversion): not expressible, oracle only
+                # bound to a tensor nobody held before (the operation converted / copied the value): the model allocates it
+                # (a new object holding it) and binds the entry to it
+                t_new = dict(self1)[n]
+                if d[0] < n0 or len(set(d[1])) != len(d[1]):
+                    struct_ok = False      # a new window on an old storage: not expressible
+                else:
+                    fresh_allocs.append([("f" + str(len(fresh_allocs)), t_new)])
+                    struct.append(["alloc", fresh_allocs[-1][0][0], world.tok.read(t_new)])
+                    struct.append(["bind", n, 2 + len(fresh_allocs), fresh_allocs[-1][0][0]])
             else:
                 struct.append(["bind", n, hit[0], hit[1]])
         for n in d0:           # binds first (a renamed entry is bound from its old name), then the removals
             if n not in d1:
                 struct.append(["unbind", n])
+    if cls == "rebind":
+        # a storage that was MOVED under the tensors the caller holds (share_memory_ relocates the storage of the same tensor
+        # objects) is outside the model: addresses of held tensors are constants there
+        for (n, t), (n_, d_, _) in zip(handles, descs[1]):
+            if t.numel() and world.sid_of(t, create=True) != d_[0]:
+                struct_ok = False
+                break
+    if struct_ok:
+        objs += fresh_allocs
     steps = [["op", row, 0, ["w"] + writes, ["r"] + rl, ["s"] + struct]]
     real_states = [[P.canon_real_obj(world, n0, ob) for ob in objs]]
     # ---- chained in-place operation on the result (a tensordict-level write through a view / into a copy)
